@@ -25,6 +25,8 @@ type C12Case struct {
 	Pre      [][]byte `json:"pre"`
 	Post     [][]byte `json:"post,omitempty"` // files added after the parsed one
 	G        *Grammar `json:"g,omitempty"` // workload "grammar": a generated grammar
+	Toks     *C10Case `json:"toks,omitempty"` // workload "tokens": a generated C10 token sequence (In is its source)
+	Lit      *C08Case `json:"lit,omitempty"`  // workload "literal": every literal parser at every offset of Lit.Data
 }
 
 func (c *C12Case) Describe() string {
@@ -92,7 +94,7 @@ var c12Workloads = func() map[string]parsley.Parser {
 	}
 }()
 
-var c12Names = []string{"arith", "json", "lr", "hidden", "lits", "trims", "grammar"}
+var c12Names = []string{"arith", "json", "lr", "hidden", "lits", "trims", "grammar", "tokens", "literal"}
 
 func genC12(t *rapid.T) interface{} {
 	c := &C12Case{Workload: rapid.SampledFrom(c12Names).Draw(t, "wl"), Pre: [][]byte{}}
@@ -117,8 +119,17 @@ func genC12(t *rapid.T) interface{} {
 		o := GenOpts{MaxNT: 3, MaxDepth: 3, Alphabet: "ab", NonMono: true, MaxInput: 6, Skeleton: true}
 		c.G = GenGrammar(t, o)
 		c.In = GenInput(t, c.G, o)
+	case "tokens":
+		c.Toks = genC10(t).(*C10Case)
+		c.In = c.Toks.source()
+	case "literal":
+		c.Lit = genC08(t).(*C08Case)
+		if len(c.Lit.Data) > 12 {
+			c.Lit.Data = c.Lit.Data[:12]
+		}
+		c.In = string(c.Lit.Data)
 	}
-	if rapid.IntRange(0, 3).Draw(t, "mut") == 0 && len(c.In) > 0 {
+	if rapid.IntRange(0, 3).Draw(t, "mut") == 0 && len(c.In) > 0 && c.Lit == nil && c.Toks == nil {
 		i := rapid.IntRange(0, len(c.In)-1).Draw(t, "mi")
 		c.In = c.In[:i] + c.In[i+1:]
 	}
@@ -152,7 +163,11 @@ func runC12(c *C12Case, pre, post [][]byte) (o c12Out, err error) {
 	for i, p := range pre {
 		fl = append(fl, text.NewFile(fmt.Sprintf("pre%d", i), p))
 	}
-	f := text.NewFile("main", []byte(c.In))
+	content := []byte(c.In)
+	if c.Lit != nil {
+		content = c.Lit.Data
+	}
+	f := text.NewFile("main", content)
 	fl = append(fl, f)
 	for i, p := range post {
 		fl = append(fl, text.NewFile(fmt.Sprintf("post%d", i), p))
@@ -161,7 +176,31 @@ func runC12(c *C12Case, pre, post [][]byte) (o c12Out, err error) {
 	o.Base = int(f.Pos(0))
 	var p parsley.Parser
 	var probe *Probe
-	if c.Workload == "grammar" {
+	if c.Workload == "literal" {
+		// every literal parser applied at every offset of the file, no combinators around it
+		var sb strings.Builder
+		for _, e := range c08Parsers(c.Lit) {
+			for off := 0; off <= f.Len(); off++ {
+				ctx := parsley.NewContext(fs, text.NewReader(f))
+				n, _, perr := e.p.Parse(ctx, data.EmptyIntMap, f.Pos(off))
+				fmt.Fprintf(&sb, "%s@%d: %s", e.name, off, renderRel(n, o.Base))
+				if perr != nil {
+					fmt.Fprintf(&sb, " error %q at %d rendered %s", perr.Error(), int(perr.Pos())-o.Base, fs.Position(perr.Pos()))
+				}
+				sb.WriteString("\n")
+			}
+		}
+		o.Tree = sb.String()
+		o.Nodes = 3
+		return o, nil
+	}
+	if c.Workload == "tokens" {
+		parsers := make([]parsley.Parser, len(c.Toks.Toks))
+		for i, ts := range c.Toks.Toks {
+			parsers[i] = tokParser(ts)
+		}
+		p = combinator.Sentence(combinator.SeqOf(parsers...).Bind(interpreter.Nil()))
+	} else if c.Workload == "grammar" {
 		probe = NewProbe()
 		probe.Bound = false
 		p = combinator.Sentence(Build(c.G, BuildOpts{Probe: probe, Interp: concatInterp(true)}).NT[0])
@@ -200,6 +239,15 @@ func checkC12(ci interface{}, st *Stats) error {
 			return Discard{"no grammar"}
 		}
 		c.G.number()
+	} else if c.Workload == "tokens" {
+		if c.Toks == nil || len(c.Toks.Toks) == 0 || len(c.Toks.Gaps) != len(c.Toks.Toks)+1 {
+			return Discard{"no token sequence"}
+		}
+		c.In = c.Toks.source()
+	} else if c.Workload == "literal" {
+		if c.Lit == nil || c.Lit.True == "" || c.Lit.False == "" || c.Lit.Nil == "" || c.Lit.Word == "" || c.Lit.Op == "" {
+			return Discard{"no literal case"}
+		}
 	} else if c12Workloads[c.Workload] == nil {
 		return Discard{"unknown workload"}
 	}
